@@ -57,6 +57,12 @@ def build_case(cid, rng, selector, unimock=False, force_async=False, no_send=Fal
     rng.shuffle(opts)
     targs = t.args_text()
     L = tg.support_for(t.methods)
+    # supertraits that are themselves entraited: `Impl<T>: Sup` then does not follow from `T: Sup` alone
+    sup = rng.choice([None, None, "ref", "self", "borrow"]) if not dyn else None
+    if sup:
+        L.append("#[::entrait::entrait%s] pub trait Sup%s { fn sup(&self) -> i32; }" % (
+            {"ref": "(delegate_by = ref)", "self": "", "borrow": "(delegate_by = Borrow)"}[sup], ": 'static" if sup != "self" else ""))
+        t.supers.append("Sup")
     L.append("#[::entrait::entrait(%s)] /*@inv*/" % ", ".join(opts))
     L.append(t.source())
     at = (t.async_trait + "\n") if t.async_trait else ""
@@ -77,6 +83,13 @@ def build_case(cid, rng, selector, unimock=False, force_async=False, no_send=Fal
         return out
     L.append("pub struct Prov { pub name: &'static str }")
     L += impl_for("Prov", "Prov", "self.name")
+    if sup:
+        for ty in ("Prov", "ProvNotSync"):
+            L.append("impl Sup for %s { fn sup(&self) -> i32 { 1 } }" % ty)
+            if sup == "ref":
+                L.append("impl ::core::convert::AsRef<dyn Sup> for %s { fn as_ref(&self) -> &(dyn Sup + 'static) { self } }" % ty)
+            if sup == "borrow":
+                L.append("impl ::core::borrow::Borrow<dyn Sup> for %s { fn borrow(&self) -> &(dyn Sup + 'static) { self } }" % ty)
     L.append("pub struct NonProv;")
     # a !Sync provider cannot implement a trait with a Sync supertrait or with Send futures (rustc rules)
     notsync = (not dyn) and not has_async and not any("Sync" in x for x in t.supers)
@@ -144,7 +157,7 @@ def build_case(cid, rng, selector, unimock=False, force_async=False, no_send=Fal
     sigs = [m.trait_sig().replace(m.name, "") for m in t.methods]
     nt = len(t.methods) >= 2 or selector in ("ref", "Borrow") or any(
         any(a.type_text() == b.type_text() for a, b in zip(m.params, m.params[1:])) for m in t.methods)
-    meta = {"selector": selector, "calls": calls, "dyn": dyn, "notsync": notsync, "opts": opts, "async_trait": t.async_trait,
+    meta = {"selector": selector, "calls": calls, "dyn": dyn, "notsync": notsync, "opts": opts, "entraited_supertrait": sup, "async_trait": t.async_trait,
             "async_methods": [m.name for m in t.methods if m.is_async], "no_send": no_send, "generic": t.generic, "nontrivial": nt,
             "methods": [m.trait_sig() for m in t.methods], "same_sig": len(set(sigs)) < len(sigs)}
     return Case(cid, "\n".join(L + D) + "\n", meta=meta)
@@ -202,6 +215,7 @@ def check_case(c, rep):
         rep.bump("calls_compared")
         rep.bump("trace_events", 2)
     rep.bucket("selectors", m["selector"])
+    rep.bucket("entraited_supertrait", str(m.get("entraited_supertrait")))
     rep.count(c.sig(), m["nontrivial"])
     rep.sample({"case": c.id, "selector": m["selector"], "methods": m["methods"], "facts": f,
                 "impl_phase": [p for p in rec["phases"] if p["label"].startswith("impl:")][:1]}, limit=3)
